@@ -29,7 +29,7 @@ ASSUMPTIONS = [
     "must-accept is only demanded for authentic events with 1 <= created_at < 2^31 and 0 <= kind <= 65535, default validators, auth off",
     "LMDB backend over /verif/shim; SQL = SQLite",
 ]
-MIN_NONTRIVIAL = {"quick": 150, "thorough": 800}
+MIN_NONTRIVIAL = {"quick": 150, "thorough": 400}
 REQUIRED_COUNTERS = ["clause.ok_true_retrievable", "clause.ok_false_no_trace", "clause.must_accept", "clause.resubmission", "clause.one_ok"]
 SHARD_TIMEOUT = {"quick": 500, "thorough": 3000}
 EXTREMES = [-1, 0, 1, 2 ** 31 - 1, 2 ** 31, 2 ** 32 - 1, 2 ** 32, 2 ** 63 - 1, 2 ** 63]
@@ -97,11 +97,14 @@ def gen_sequence(seed, n):
             label, raw, tk, cons = corr_cache.pop()
             steps.append({"cls": "corrupt/" + label.split(" ")[0], "raw": raw})
         elif roll < 0.90:
-            which = r.choice(["many-tags", "long-value", "long-name", "huge-value", "long-d", "many-items", "long-content"])
+            which = r.choice(["many-tags", "long-value", "long-name", "huge-value", "long-d", "many-items", "long-content", "long-multibyte", "long-multibyte"])
             if which == "many-tags":
                 tags = [["t", "v%d" % j] for j in range(r.choice([100, 500, 2000]))]
             elif which == "long-value":
                 tags = [["t", "x" * r.choice([400, 480, 500, 600, 1000])]]
+            elif which == "long-multibyte":
+                # few characters, many bytes (index keys are limited in BYTES)
+                tags = [[r.choice(["t", "d", "expiration"]), r.choice(["€" * 200, "あ" * 256, "é" * 250, "\U0001f600" * 130, "é" * 128, "あ" * 85 + "x"])]]
             elif which == "long-name":
                 tags = [["n" * 600, "v"]]
             elif which == "huge-value":
